@@ -2,7 +2,7 @@
 
 Two implementation-side engines, one model:
   A  harness/wcoll_harness.c : read_wcoll() of the repository on generated directory trees (forked child per case,
-     5 s alarm), hosts in hex - long lines, include graphs, odd directory names, malformed directives;
+     20 s alarm), hosts in hex - long lines, include graphs, odd directory names, malformed directives;
   B  the real pdsh binary (lib/realeng.py) : `pdsh -Q -w ... -w ...` with generated words, ^files, '-' (standard
      input), WCOLL in the environment, every order and grouping - the whole path through opt.c.
 Both are compared with the extracted Coq model (Args/WcollFile.v, Args/Assemble.v through ocaml/args_runner.ml) and
@@ -504,15 +504,14 @@ class Engines:
                     argv += ["-w", a]
                 env = {} if c["wcoll"] is None else {"WCOLL": c["wcoll"]}
                 rc, out, err = self.real.run(argv, env=env, stdin=c["stdin"], timeout=10, cwd=d)
+                if rc == -999:                  # a loaded machine must not look like an include loop: once more, patiently
+                    rc, out, err = self.real.run(argv, env=env, stdin=c["stdin"], timeout=90, cwd=d)
                 implB[k] = canon_real(rc, out, err)
         t1 = time.time()
-        iresA = ctx.run_lines([self.harness], icasesA)
+        iresA = ctx.run_lines([self.harness], icasesA, timeout_per_case=60.0)
         t2 = time.time()
         mres = ctx.run_lines([self.model], mcases, env={"OCAMLRUNPARAM": "l=4G"}, crash_tag="MODEL-CRASH")
         t3 = time.time()
-        if os.environ.get("C10_DUMP"):
-            open(os.environ["C10_DUMP"], "w").write("\n".join(mcases) + "\n")
-            shutil.copy(self.model, os.environ["C10_DUMP"] + ".runner")
         ctx.log("timing: write+oracle+real binary %.1fs, harness %.1fs, model %.1fs" % (t1 - t0, t2 - t1, t3 - t2))
         ires = [None] * len(cases)
         for k, v in zip(idxA, iresA):
@@ -541,7 +540,7 @@ class Engines:
 def canon_real(rc, out, err):
     """what a user sees of `pdsh -Q`: the target list, or a failure"""
     if rc == -999:
-        return "HANG no answer within 10 s"
+        return "HANG no answer within 90 s"
     if rc < 0 or b"Sanitizer" in err or b"runtime error" in err:
         return "CRASH " + err[-200:].decode("latin-1")
     if rc != 0:
@@ -618,6 +617,14 @@ def judge(ctx, c, io, mo, v, counters):
     return None
 
 
+F_COLON = "C10-include-dir-colon"
+
+
+def colon_signature(c):
+    """signature of the finding: a file named on the command line (or by WCOLL) whose directory name contains ':'"""
+    return any(b":" in s_dirname(t) for t in case_tops(c))
+
+
 def run(ctx):
     ctx.gen_params()
     ctx.prove()
@@ -670,6 +677,11 @@ def run(ctx):
             dist["no_hosts"] += v not in ("ERR", "SKIP") and not v[1]
         seen_cases.add(json.dumps(to_json(c), sort_keys=True))
         problem = judge(ctx, c, io, mo, v, counters)
+        if problem and colon_signature(c) and ctx.is_known(F_COLON):
+            # the defect repaired by fixes/C10-include-dir-with-colon.diff, if the coordinator lists it as open
+            ctx.known_finding(F_COLON, "an #include is looked up in the wrong directories when the directory of the file named "
+                                       "on the command line contains ':' (it is split like a search path)")
+            continue
         if problem:
             bad += 1
             rec = short(to_json(c))
@@ -700,9 +712,9 @@ def run(ctx):
                 "taken as they are (./, ../, absolute), nested, diamond and cyclic include graphs including cycles through the top-level file, "
                 "unreadable includes, include names longer than the path buffer, lines of 2040..9000 bytes (long host lists, a name straddling "
                 "byte 2047 after blanks, long comments), a few lines with a NUL byte (correspondence only); read by the real read_wcoll() in a "
-                "forked child with a 5 s alarm.  engine B: the real pdsh binary, `pdsh -Q` with 0-5 sources (-w words and ranges, ^file, "
+                "forked child with a 20 s alarm.  engine B: the real pdsh binary, `pdsh -Q` with 0-5 sources (-w words and ranges, ^file, "
                 "'-' and '^-' for standard input, '-word' and '-^file' exclusions, missing files, leading blanks) in every order and grouping "
-                "into -w arguments, WCOLL unset / a file / missing / '-', 10 s per case.  Both compared with the extracted model and with an "
+                "into -w arguments, WCOLL unset / a file / missing / '-', 10 s per case (90 s on a second try).  Both compared with the extracted model and with an "
                 "independent Python assembler (S); distinct = distinct case",
         "samples": samples, "input_distribution": dist, "corpus_cases": ncorpus, "exhaustive_order_cases": nexh, "disagreements": bad,
         "q_output_truncated_skipped": counters["truncated"], "seconds_cases": round(time.time() - t0, 1)})
